@@ -26,15 +26,20 @@ impl<U: TimeUnitTrait> DateTime<U> {
     pub fn into_unit<T: TimeUnitTrait>(self) -> DateTime<T> {
         if U::unit() == T::unit() {
             unsafe { std::mem::transmute::<DateTime<U>, DateTime<T>>(self) }
+        } else if self.is_nat() {
+            // NaT is i64::MIN in every unit and must not be scaled
+            DateTime::nat()
         } else {
             use TimeUnit::*;
+            // a coarser unit denotes the same instant truncated toward the past (floor), also
+            // for timestamps before the epoch, as chrono's timestamp accessors do
             match (U::unit(), T::unit()) {
-                (Nanosecond, Microsecond) => DateTime::new(self.0 / NANOS_PER_MICRO),
-                (Nanosecond, Millisecond) => DateTime::new(self.0 / NANOS_PER_MILLI),
-                (Nanosecond, Second) => DateTime::new(self.0 / NANOS_PER_SEC),
-                (Microsecond, Millisecond) => DateTime::new(self.0 / MICROS_PER_MILLI),
-                (Microsecond, Second) => DateTime::new(self.0 / MICROS_PER_SEC),
-                (Millisecond, Second) => DateTime::new(self.0 / MILLIS_PER_SEC),
+                (Nanosecond, Microsecond) => DateTime::new(self.0.div_euclid(NANOS_PER_MICRO)),
+                (Nanosecond, Millisecond) => DateTime::new(self.0.div_euclid(NANOS_PER_MILLI)),
+                (Nanosecond, Second) => DateTime::new(self.0.div_euclid(NANOS_PER_SEC)),
+                (Microsecond, Millisecond) => DateTime::new(self.0.div_euclid(MICROS_PER_MILLI)),
+                (Microsecond, Second) => DateTime::new(self.0.div_euclid(MICROS_PER_SEC)),
+                (Millisecond, Second) => DateTime::new(self.0.div_euclid(MILLIS_PER_SEC)),
                 (Microsecond, Nanosecond) => DateTime::new(self.0 * NANOS_PER_MICRO),
                 (Millisecond, Nanosecond) => DateTime::new(self.0 * NANOS_PER_MILLI),
                 (Second, Nanosecond) => DateTime::new(self.0 * NANOS_PER_SEC),
